@@ -1,13 +1,15 @@
 #!/bin/bash
-# usage: recheck_some.sh <slot 0..N-1> <N> <glob of seeded names, e.g. 'C*-agent8-*'> [nobenign]
-#   like recheck_all.sh, restricted to the seeded changes matching the glob (plus, by default, every behaviour-preserving change)
-SLOT=$1; N=$2; PAT=$3; NB=$4; i=0
+# usage: recheck_some.sh <slot 0..N-1> <N> "<globs of seeded names, e.g. 'C*-agent8-*' or 'C01-* C04-*'>" [nobenign]
+#   like recheck_all.sh, restricted to the seeded changes matching the globs (plus, by default, every behaviour-preserving change)
+SLOT=$1; N=$2; PATS=$3; NB=$4; i=0
 export VERIF_CACHE_DIR=/tmp/vcache-$((SLOT+1))
 mkdir -p $VERIF_CACHE_DIR
 cd /verif
+for PAT in $PATS; do
 for d in seeded/$PAT/; do
   n=$(basename $d); i=$((i+1))
   if [ $((i % N)) -eq $SLOT ]; then python3 tools/eval_seeded.py --recheck $n 2>&1 | head -1; fi
+done
 done
 [ -n "$NB" ] && exit 0
 for d in seeded/benign/*/; do
